@@ -1,4 +1,494 @@
-import ExoModel.Cursor
+/-
+  C06 — forwarded cursors denote the same code or are invalid.
+
+  For every tree, every location of an atomic edit of `internal_cursors.py` and every valid cursor
+  of the old tree, with `(t', fwd) = edit t`:
+    * statement cursors (`NodeCoh`): `fwd c` is `invalid` or a node of `t'` with the same lineage
+      label — never a dangling path, never a crash; `invalid` exactly for the deleted statements;
+    * gap cursors (`GapCoh`): forwarded through the anchor, type kept;
+    * block cursors (`BlockCoh`): `invalid`, or a valid non-empty block of `t'` that covers exactly
+      the forwards of the statements the old block covered;
+    * composition: coherence is closed under `fwd₂ ∘ fwd₁`.
+  Where the Python code does something else (see docs/C06.md) the theorem is named `…_partial`
+  and a `…_counterexample` theorem exhibits the deviation on a concrete tree.
+-/
+import ExoModel.CursorSpec
+import ExoModel.Lemmas.CursorEdits
+import ExoModel.Lemmas.CursorMoveTree
+
 namespace Exo.Cursor
-theorem stub_c06 : True := trivial
+
+/-! ### example trees -/
+
+def leaf (l : Nat) : Tree := .mk l 3 [] []
+
+/-- `proc: [for(1): [s2; s3; s4]; if(5): [s6] else [s7; s8]; s9]` -/
+def exT : Tree :=
+  .mk 0 0 [.mk 1 1 [leaf 2, leaf 3, leaf 4] [], .mk 5 2 [leaf 6] [leaf 7, leaf 8], leaf 9] []
+
+/-- a `For` wrapper that takes the block as its body -/
+def forCtor (l : Nat) : List Tree → Tree := fun nodes => .mk l 1 nodes []
+
+/-- the `add_loop(guard=True)` wrapper: `For(body=[If(cond, block)])` -/
+def guardCtor (l : Nat) : List Tree → Tree := fun nodes => .mk l 1 [.mk (l + 1) 2 nodes []] []
+
+theorem forCtor_direct (l : Nat) : WrapDirect (forCtor l) .body := fun _ => rfl
+
+/-! ### (d) composition -/
+
+/-- coherence (statement and gap cursors) is closed under error-propagating composition -/
+theorem compose_coherent {t t' t'' : Tree} {fwd₁ fwd₂ : Fwd}
+    (h₁ : Coherent t t' fwd₁) (h₂ : Coherent t' t'' fwd₂) : Coherent t t'' (fwd₂.comp fwd₁) := by
+  constructor
+  · intro p n hp
+    rcases h₁.node p n hp with hinv | ⟨p', n', hf, hg, hl, hne⟩
+    · left; simp [Fwd.comp, hinv]
+    · rcases h₂.node p' n' hg with hinv | ⟨p'', n'', hf2, hg2, hl2, hne2⟩
+      · left; simp [Fwd.comp, hf, hinv]
+      · right
+        exact ⟨p'', n'', by simp [Fwd.comp, hf, hf2], hg2, by rw [hl2, hl], fun h => hne2 (hne h)⟩
+  · intro p ty
+    obtain ⟨a1, a2⟩ := h₁.gap p ty
+    cases hf : fwd₁ (.node p) with
+    | error e =>
+      have hgp := a1 e hf
+      constructor
+      · intro e' he'; simp only [Fwd.comp, hf] at he'; cases he'; simp [Fwd.comp, hgp]
+      · intro c hc; simp [Fwd.comp, hf] at hc
+    | ok c =>
+      obtain ⟨p', rfl, hgp⟩ := a2 c hf
+      obtain ⟨b1, b2⟩ := h₂.gap p' ty
+      constructor
+      · intro e' he'
+        simp only [Fwd.comp, hf] at he'
+        simp [Fwd.comp, hgp, b1 e' he']
+      · intro c hc
+        simp only [Fwd.comp, hf] at hc
+        obtain ⟨p'', rfl, hgp2⟩ := b2 c hc
+        exact ⟨p'', rfl, by simp [Fwd.comp, hgp, hgp2]⟩
+
+/-- … and so is coherence of block cursors -/
+theorem compose_coherentB {t t' t'' : Tree} {fwd₁ fwd₂ : Fwd}
+    (h₁ : CoherentB t t' fwd₁) (h₂ : CoherentB t' t'' fwd₂) : CoherentB t t'' (fwd₂.comp fwd₁) := by
+  refine { toCoherent := compose_coherent h₁.toCoherent h₂.toCoherent, block := ?_ }
+  intro anchor a lo hi hv
+  rcases h₁.block anchor a lo hi hv with hinv | ⟨an', a', lo', hi', hf, hv', hiff⟩
+  · left; simp [Fwd.comp, hinv]
+  · rcases h₂.block an' a' lo' hi' hv' with hinv | ⟨an'', a'', lo'', hi'', hf2, hv'', hiff2⟩
+    · left; simp [Fwd.comp, hf, hinv]
+    · right
+      refine ⟨an'', a'', lo'', hi'', by simp [Fwd.comp, hf, hf2], hv'', ?_⟩
+      intro q q'' hq hfq
+      obtain ⟨n, hn⟩ := Option.isSome_iff_exists.mp hq
+      rcases h₁.node q n hn with hinv | ⟨q', n', hfq1, hg, _, _⟩
+      · simp [Fwd.comp, hinv] at hfq
+      · simp only [Fwd.comp, hfq1] at hfq
+        rw [hiff2 q' q'' (by simp [ValidNode, hg]) hfq, hiff q q' hq hfq1]
+
+/-- a chain of two edits of the example tree (what `_compose` builds inside a primitive) -/
+def exChain1 : Tree × Fwd := insert exT [(.body, 0), (.body, 1)] .before [leaf 20]
+def exChain2 : Tree × Fwd := wrap exChain1.1 [(.body, 0)] .body 1 3 (forCtor 30) .body
+
+example :
+    (exChain2.2.comp exChain1.2) (.node [(.body, 0), (.body, 1)]) = .ok (.node [(.body, 0), (.body, 1), (.body, 1)]) ∧
+    labelAt exChain2.1 [(.body, 0), (.body, 1), (.body, 1)] = labelAt exT [(.body, 0), (.body, 1)] := by
+  decide
+
+/-! ### `touch`: edits below a statement -/
+
+theorem touch_coherent (t : Tree) (p : Path) : CoherentB t (touch t p).1 (touch t p).2 := by
+  refine { node := ?_, gap := ?_, block := ?_ }
+  · intro q n hq; exact Or.inr ⟨q, n, rfl, hq, rfl, id⟩
+  · intro q ty
+    simp [touch, Fwd.id]
+  · intro anchor a lo hi hv
+    refine Or.inr ⟨anchor, a, lo, hi, rfl, hv, ?_⟩
+    intro q q' _ h
+    simp only [touch, Fwd.id, Except.ok.injEq, Cursor.node.injEq] at h
+    subst h
+    exact Iff.rfl
+
+/-! ### `Gap._insert` -/
+
+/-- (a)–(c) for insertion at any gap of any tree: fully coherent, nothing is invalidated -/
+theorem insert_coherent (t : Tree) (anchor : Path) (ty : GapType) (stmts : List Tree)
+    (hne : anchor ≠ []) (hv : ValidNode t anchor) :
+    CoherentB t (insert t anchor ty stmts).1 (insert t anchor ty stmts).2 :=
+  insert_coherent_aux t anchor ty stmts hne hv
+
+/-- insertion never invalidates a statement cursor -/
+theorem insert_never_invalid (anchor : Path) (ty : GapType) (len : Nat) (hne : anchor ≠ []) (p : Path) :
+    ∃ p', forwardInsert anchor ty len (.node p) = .ok (.node p') := by
+  obtain ⟨E, a, i, rfl⟩ := exists_snoc_of_ne_nil hne
+  rw [forwardInsert_eq]
+  simp only [localForward]
+  cases h : lfNode E a (insFn (insertionIndex (E ++ [(a, i)]) ty) len) p with
+  | ok p' => exact ⟨p', rfl⟩
+  | error e =>
+    obtain ⟨j, rest, _, hf⟩ := (lfNode_error_iff _ _ _ _ _).mp h
+    simp [insFn] at hf
+
+example : CoherentB exT (insert exT [(.body, 0), (.body, 1)] .before [leaf 20, leaf 21]).1
+    (insert exT [(.body, 0), (.body, 1)] .before [leaf 20, leaf 21]).2 :=
+  insert_coherent _ _ _ _ (by decide) rfl
+
+example : (insert exT [(.body, 0), (.body, 1)] .before [leaf 20, leaf 21]).2 (.node [(.body, 0), (.body, 2)])
+    = .ok (.node [(.body, 0), (.body, 4)]) := by decide
+
+/-! ### `Block._replace` / `Block._delete` -/
+
+/-- (a), (c) for replacing any (possibly empty) range of any block by any statements -/
+theorem replace_coherent (t n : Tree) (bp : Path) (a : Attr) (lo hi : Nat) (nodes ed : List Tree)
+    (hv : t.get? bp = some n) (hlo : lo ≤ hi) (hhi : hi ≤ (n.children a).length) :
+    Coherent t (replaceBlock t bp a lo hi nodes ed).1 (replaceBlock t bp a lo hi nodes ed).2 :=
+  replace_coherent_aux t n bp a lo hi nodes ed hv hlo hhi
+
+/-- a statement cursor is invalidated by replace/delete exactly when it points into the replaced
+    range (the statement itself or anything below it) -/
+theorem replace_invalid_iff (bp : Path) (a : Attr) (lo hi nIns : Nat) (p : Path) (e : Err) :
+    forwardReplace bp a lo hi nIns (.node p) = .error e ↔
+      e = .invalid ∧ ∃ i rest, p = bp ++ (a, i) :: rest ∧ lo ≤ i ∧ i < hi := by
+  rw [forwardReplace_eq]
+  simp only [localForward]
+  constructor
+  · intro h
+    cases hl : lfNode bp a (replFn lo hi nIns) p with
+    | ok p' => simp [hl] at h
+    | error e' =>
+      simp only [hl, Except.error.injEq] at h
+      subst h
+      obtain ⟨i, rest, hp, hf⟩ := (lfNode_error_iff _ _ _ _ _).mp hl
+      simp only [replFn] at hf
+      split at hf
+      · rename_i hin
+        simp only [Except.error.injEq] at hf
+        exact ⟨hf.symm, i, rest, hp, hin.1, hin.2⟩
+      · simp at hf
+  · rintro ⟨rfl, i, rest, rfl, h1, h2⟩
+    have : lfNode bp a (replFn lo hi nIns) (bp ++ (a, i) :: rest) = .error .invalid :=
+      (lfNode_error_iff _ _ _ _ _).mpr ⟨i, rest, rfl, by simp [replFn, h1, h2]⟩
+    simp [this]
+
+/-- (b) block cursors under replace, at every block except the one equal to the replaced range
+    when nothing is inserted -/
+theorem replace_blockCohAt (t n : Tree) (bp : Path) (a : Attr) (lo hi : Nat) (nodes ed : List Tree)
+    (hv : t.get? bp = some n) (hlo : lo ≤ hi) (hhi : hi ≤ (n.children a).length)
+    (anchor : Path) (b : Attr) (blo bhi : Nat) (hvb : ValidBlock t anchor b blo bhi)
+    (hgood : ¬ (anchor = bp ∧ b = a ∧ blo = lo ∧ bhi = hi ∧ nodes = [])) :
+    BlockCohAt t (replaceBlock t bp a lo hi nodes ed).1 (replaceBlock t bp a lo hi nodes ed).2
+      anchor b blo bhi := by
+  rw [replaceBlock_tree_eq a lo hi nodes ed (by simp [hv])]
+  show BlockCohAt t _ (forwardReplace bp a lo hi nodes.length) _ _ _ _
+  rw [forwardReplace_eq]
+  exact localForward_blockCohAt hv (replace_nodeSpec n a lo hi nodes ed hlo hhi)
+    (replace_nodeInj n a lo hi _ hlo) (replace_blockSpec n a lo hi nodes ed hlo hhi) hvb
+    (fun h1 h2 h3 => hgood ⟨h1, h2, h3.1, h3.2.1, h3.2.2⟩)
+
+/-- replacing by at least one statement: fully coherent, blocks included -/
+theorem replace_coherentB (t n : Tree) (bp : Path) (a : Attr) (lo hi : Nat) (nodes ed : List Tree)
+    (hv : t.get? bp = some n) (hlo : lo ≤ hi) (hhi : hi ≤ (n.children a).length) (hne : nodes ≠ []) :
+    CoherentB t (replaceBlock t bp a lo hi nodes ed).1 (replaceBlock t bp a lo hi nodes ed).2 :=
+  { toCoherent := replace_coherent t n bp a lo hi nodes ed hv hlo hhi
+    block := fun anchor b blo bhi hvb =>
+      replace_blockCohAt t n bp a lo hi nodes ed hv hlo hhi anchor b blo bhi hvb (fun h => hne h.2.2.2.2) }
+
+/-- deletion: statement and gap cursors coherent; block cursors coherent except the block equal
+    to the deleted range (the emptied list gets a `pass`) -/
+theorem delete_coherent (t n : Tree) (bp : Path) (a : Attr) (lo hi : Nat) (pass : Tree)
+    (hv : t.get? bp = some n) (hlo : lo ≤ hi) (hhi : hi ≤ (n.children a).length) :
+    Coherent t (deleteBlock t bp a lo hi pass).1 (deleteBlock t bp a lo hi pass).2 :=
+  replace_coherent t n bp a lo hi [] [pass] hv hlo hhi
+
+theorem delete_blockCoh_partial (t n : Tree) (bp : Path) (a : Attr) (lo hi : Nat) (pass : Tree)
+    (hv : t.get? bp = some n) (hlo : lo ≤ hi) (hhi : hi ≤ (n.children a).length)
+    (anchor : Path) (b : Attr) (blo bhi : Nat) (hvb : ValidBlock t anchor b blo bhi)
+    -- missing: the block cursor equal to the deleted range
+    (hne : ¬ (anchor = bp ∧ b = a ∧ blo = lo ∧ bhi = hi)) :
+    BlockCohAt t (deleteBlock t bp a lo hi pass).1 (deleteBlock t bp a lo hi pass).2 anchor b blo bhi :=
+  replace_blockCohAt t n bp a lo hi [] [pass] hv hlo hhi anchor b blo bhi hvb
+    (fun h => hne ⟨h.1, h.2.1, h.2.2.1, h.2.2.2.1⟩)
+
+/-- what Python does there: the block cursor equal to the deleted range is forwarded to the
+    EMPTY range at its old start instead of being invalidated (`lift_cursor` then asserts) -/
+theorem delete_block_eq_forwards_empty (t : Tree) (bp : Path) (a : Attr) (lo hi : Nat) (pass : Tree)
+    (h : lo < hi) :
+    (deleteBlock t bp a lo hi pass).2 (.block bp a lo hi) = .ok (.block bp a lo lo) := by
+  show forwardReplace bp a lo hi 0 (.block bp a lo hi) = _
+  have h1 : intersectsPartially lo hi lo hi = false := by
+    simp [intersectsPartially]
+  have h2 : isSubRange lo hi lo hi = false := by
+    simp [isSubRange, rangeEq]
+  simp only [forwardReplace, localForward, and_self, if_true, h1, h2, Bool.or_self, Bool.false_eq_true,
+    if_false, replUpd, List.append_nil]
+  have : ¬ lo ≥ hi := by omega
+  simp [this]
+  omega
+
+example : Coherent exT (deleteBlock exT [(.body, 0)] .body 1 3 (leaf 99)).1
+    (deleteBlock exT [(.body, 0)] .body 1 3 (leaf 99)).2 :=
+  delete_coherent exT (.mk 1 1 [leaf 2, leaf 3, leaf 4] []) _ _ _ _ _ rfl (by decide) (by decide)
+
+example : (deleteBlock exT [(.body, 0)] .body 1 3 (leaf 99)).2 (.node [(.body, 0), (.body, 1)]) = .error .invalid ∧
+    (deleteBlock exT [(.body, 0)] .body 0 2 (leaf 99)).2 (.node [(.body, 0), (.body, 2)]) = .ok (.node [(.body, 0), (.body, 0)]) ∧
+    (deleteBlock exT [(.body, 0)] .body 1 3 (leaf 99)).2 (.block [(.body, 0)] .body 1 3) = .ok (.block [(.body, 0)] .body 1 1) := by
+  decide
+
+example : CoherentB exT (replaceBlock exT [(.body, 1)] .orelse 0 1 [leaf 20, leaf 21] []).1
+    (replaceBlock exT [(.body, 1)] .orelse 0 1 [leaf 20, leaf 21] []).2 :=
+  replace_coherentB exT (.mk 5 2 [leaf 6] [leaf 7, leaf 8]) _ _ _ _ _ _ rfl (by decide) (by decide) (by simp)
+
+/-! ### `Block._wrap` -/
+
+/-- (a), (c) for wrapping any non-empty range — under the hypothesis `WrapDirect` that the wrapper
+    constructor puts the wrapped statements directly into its `wrapAttr` block -/
+theorem wrap_coherent (t n : Tree) (bp : Path) (a : Attr) (lo hi : Nat) (ctor : List Tree → Tree)
+    (wa : Attr) (hd : WrapDirect ctor wa)
+    (hv : t.get? bp = some n) (hlo : lo ≤ hi) (hhi : hi ≤ (n.children a).length) :
+    Coherent t (wrap t bp a lo hi ctor wa).1 (wrap t bp a lo hi ctor wa).2 := by
+  rw [wrap_tree_eq a lo hi ctor wa (by simp [hv])]
+  show Coherent t _ (forwardWrap bp a lo hi wa)
+  rw [forwardWrap_eq]
+  exact localForward_coherent _ hv (wrap_nodeSpec n a lo hi ctor wa hd hlo hhi)
+
+/-- wrapping never invalidates a statement cursor -/
+theorem wrap_never_invalid (bp : Path) (a : Attr) (lo hi : Nat) (wa : Attr) (p : Path) :
+    ∃ p', forwardWrap bp a lo hi wa (.node p) = .ok (.node p') := by
+  rw [forwardWrap_eq]
+  simp only [localForward]
+  cases h : lfNode bp a (wrapFn lo hi wa) p with
+  | ok p' => exact ⟨p', rfl⟩
+  | error e =>
+    obtain ⟨j, rest, _, hf⟩ := (lfNode_error_iff _ _ _ _ _).mp h
+    simp only [wrapFn] at hf
+    split at hf <;> (try split at hf) <;> simp at hf
+
+/-- (b) block cursors under wrap -/
+theorem wrap_blockCoh_partial (t n : Tree) (bp : Path) (a : Attr) (lo hi : Nat) (ctor : List Tree → Tree)
+    (wa : Attr) (hd : WrapDirect ctor wa)
+    (hv : t.get? bp = some n) (hlo : lo < hi) (hhi : hi ≤ (n.children a).length)
+    (anchor : Path) (b : Attr) (blo bhi : Nat) (hvb : ValidBlock t anchor b blo bhi)
+    -- missing: blocks inside the wrapped range that do not start at its start
+    -- (`fwd_block` uses `blk_rng.start` as the wrapper's index)
+    (hgood : ¬ (anchor = bp ∧ b = a ∧ lo < blo ∧ bhi ≤ hi)) :
+    BlockCohAt t (wrap t bp a lo hi ctor wa).1 (wrap t bp a lo hi ctor wa).2 anchor b blo bhi := by
+  rw [wrap_tree_eq a lo hi ctor wa (by simp [hv])]
+  show BlockCohAt t _ (forwardWrap bp a lo hi wa) _ _ _ _
+  rw [forwardWrap_eq]
+  exact localForward_blockCohAt hv (wrap_nodeSpec n a lo hi ctor wa hd (Nat.le_of_lt hlo) hhi)
+    (wrap_nodeInj n a lo hi wa (Nat.le_of_lt hlo)) (wrap_blockSpec n a lo hi ctor wa hd hlo hhi) hvb
+    (fun h1 h2 h3 => hgood ⟨h1, h2, h3.1, h3.2⟩)
+
+example : Coherent exT (wrap exT [(.body, 0)] .body 0 3 (forCtor 30) .body).1
+    (wrap exT [(.body, 0)] .body 0 3 (forCtor 30) .body).2 :=
+  wrap_coherent exT (.mk 1 1 [leaf 2, leaf 3, leaf 4] []) _ _ _ _ _ _ (forCtor_direct 30) rfl (by decide) (by decide)
+
+def exWrapAll : Tree × Fwd := wrap exT [(.body, 0)] .body 0 3 (forCtor 30) .body
+
+/-- the deviation: wrap `[s2; s3; s4]`, the block cursor `[s3; s4]` is sent below index 1 of the
+    loop body — but the wrapper is at index 0 and index 1 no longer exists: a dangling cursor
+    (reachable: `divide_loop` + a block cursor into the loop body) -/
+theorem wrap_block_inside_counterexample :
+    exWrapAll.2 (.block [(.body, 0)] .body 1 3) = .ok (.block [(.body, 0), (.body, 1)] .body 1 3) ∧
+    validCursorB exWrapAll.1 (.block [(.body, 0), (.body, 1)] .body 1 3) = false := by
+  decide
+
+def exWrapGuard : Tree × Fwd := wrap exT [(.body, 0)] .body 1 2 (guardCtor 30) .body
+
+/-- `WrapDirect` is necessary (DESIGN F16): with the `add_loop(guard=True)` wrapper the cursor of the
+    wrapped statement `s3` lands on the new `if` (label 31), not on `s3` -/
+theorem wrap_not_direct_counterexample :
+    exWrapGuard.2 (.node [(.body, 0), (.body, 1)]) = .ok (.node [(.body, 0), (.body, 1), (.body, 0)]) ∧
+    labelAt exWrapGuard.1 [(.body, 0), (.body, 1), (.body, 0)] = some 31 ∧
+    labelAt exT [(.body, 0), (.body, 1)] = some 3 ∧
+    ¬ NodeCoh exT exWrapGuard.1 exWrapGuard.2 := by
+  have h2 : exWrapGuard.2 (.node [(.body, 0), (.body, 1)])
+      = .ok (.node [(.body, 0), (.body, 1), (.body, 0)]) := by decide
+  refine ⟨h2, by decide, by decide, ?_⟩
+  intro h
+  rcases h [(.body, 0), (.body, 1)] (leaf 3) rfl with hinv | ⟨p', n', hf, hg, hl, _⟩
+  · rw [h2] at hinv; cases hinv
+  · rw [h2] at hf
+    cases hf
+    have h3 : exWrapGuard.1.get? [(.body, 0), (.body, 1), (.body, 0)]
+        = some (.mk 31 2 [leaf 3] []) := rfl
+    rw [h3] at hg
+    cases hg
+    exact absurd hl (by decide)
+
+/-! ### `Node._replace` (single node) -/
+
+/-- what Python does: every cursor that does not go through the replaced node's list is kept and
+    coherent; the cursor of the replaced node stays where it is (it now denotes `ast`) -/
+theorem nodeReplace_partial (t n : Tree) (E : Path) (a : Attr) (i : Nat) (ast c : Tree)
+    (hE : t.get? E = some n) (hc : (n.children a)[i]? = some c) :
+    -- missing: siblings of the replaced node (all sent to the replaced node) and its descendants
+    (∀ p m, t.get? p = some m → (¬ ∃ j rest, p = E ++ (a, j) :: rest) →
+      (nodeReplace t (E ++ [(a, i)]) ast).2 (.node p) = .ok (.node p) ∧
+      ∃ m', (nodeReplace t (E ++ [(a, i)]) ast).1.get? p = some m' ∧ m'.label = m.label) ∧
+    (nodeReplace t (E ++ [(a, i)]) ast).2 (.node (E ++ [(a, i)])) = .ok (.node (E ++ [(a, i)])) ∧
+    (nodeReplace t (E ++ [(a, i)]) ast).1.get? (E ++ [(a, i)]) = some ast := by
+  have hv : (t.get? (E ++ [(a, i)])).isSome := by
+    rw [Tree.get?_append_of_get? hE, Tree.get?_cons, hc]; simp
+  have htree : (nodeReplace t (E ++ [(a, i)]) ast).1 = t.modBlock (spliceAt (fun _ => [ast]) i) a E := by
+    simp [nodeReplace, Tree.rewriteRoot, rewrite_snoc _ t E a i hv]
+  have hfwd : (nodeReplace t (E ++ [(a, i)]) ast).2 =
+      localForward E a (fun _ _ => .ok [(a, i)]) (fun a lo hi => .ok ([], a, lo, hi)) := by
+    simp [nodeReplace, forwardNodeReplace]
+  refine ⟨?_, ?_, ?_⟩
+  · intro p m hp hnot
+    have hl : lfNode E a (fun _ _ => Except.ok [(a, i)]) p = .ok p := by
+      rw [lfNode_congr_offlist E a p hnot _ (fun a j => Except.ok [(a, j)]), lfNode_id]
+    refine ⟨by rw [hfwd]; simp [localForward, hl], ?_⟩
+    rw [htree]
+    rcases path_trichotomy p E with ⟨s, rfl⟩ | ⟨s, _, rfl⟩ | ⟨c0, x, y, p', E', hxy, rfl, rfl⟩
+    · rw [Tree.get?_modBlock_append hE]
+      cases s with
+      | nil =>
+        simp only [List.append_nil] at hp
+        rw [hE] at hp; cases hp
+        exact ⟨_, rfl, by simp⟩
+      | cons st rest =>
+        obtain ⟨b, j⟩ := st
+        have hb : b ≠ a := fun hb => hnot ⟨j, rest, by simp [hb]⟩
+        refine ⟨m, ?_, rfl⟩
+        rw [Tree.get?_cons, Tree.children_setChildren_ne _ hb, ← Tree.get?_cons,
+          ← Tree.get?_append_of_get? hE]
+        exact hp
+    · rw [Tree.get?_modBlock_prefix hp]
+      exact ⟨_, rfl, by simp⟩
+    · rw [Tree.get?_modBlock_diverge _ _ _ _ _ _ hxy]
+      exact ⟨m, hp, rfl⟩
+  · rw [hfwd]
+    have := lfNode_self_const E a i
+    simp [localForward, this]
+  · rw [htree, Tree.get?_modBlock_append hE, Tree.get?_cons, Tree.children_setChildren_same]
+    have hi := getElem?_lt_length hc
+    have : (spliceAt (fun _ => [ast]) i (n.children a))[i]? = some ast := by
+      simp only [spliceAt, hc]
+      have := getElem?_splice_mid (n.children a) [ast] ((n.children a).drop (i + 1)) i 0 (by omega)
+      simpa using this
+    rw [this]; rfl
+
+/-- the deviation: replacing `s3` (a statement inside a block) by a single node sends the cursors
+    of its siblings `s2` and `s4` to the replaced node -/
+def exNodeRepl : Tree × Fwd := nodeReplace exT [(.body, 0), (.body, 1)] (leaf 40)
+
+theorem nodeReplace_sibling_counterexample :
+    exNodeRepl.2 (.node [(.body, 0), (.body, 2)]) = .ok (.node [(.body, 0), (.body, 1)]) ∧
+    labelAt exNodeRepl.1 [(.body, 0), (.body, 1)] = some 40 ∧ labelAt exT [(.body, 0), (.body, 2)] = some 4 := by
+  decide
+
+/-! ### `Block._move` -/
+
+/-- (a), (c) for moving any non-empty range of any block to any gap of the tree, for EVERY statement
+    and gap cursor — provided
+      * `hP1`: the gap's anchor is not one of the moved statements and not inside one
+        (`target in self` is replaced by `self.before()` in Python; a gap inside a moved statement
+        makes `_move` itself meaningless);
+      * `hbug`: not the case `moveBug` in which `_forward_move` adjusts the gap path at the wrong
+        level (see `move_gap_path_counterexample`).
+    Nothing is invalidated: every statement is forwarded, moved ones to their new place. -/
+theorem move_coherent (t n : Tree) (bp : Path) (ba : Attr) (lo hi : Nat) (gp : Path) (ga : Attr) (gj : Nat)
+    (gTy : GapType) (pass : Tree)
+    (hn : t.get? bp = some n) (hlt : lo < hi) (hhi : hi ≤ (n.children ba).length)
+    (hg : ValidNode t (gp ++ [(ga, gj)]))
+    (hP1 : ∀ i s, lo ≤ i → i < hi → gp ++ [(ga, gj)] ≠ bp ++ (ba, i) :: s)
+    (hbug : moveBug (bp ++ [(ba, lo)]) (gapPathOf (gp ++ [(ga, gj)]) gTy) = false) :
+    Coherent t (move t bp ba lo hi (gp ++ [(ga, gj)]) gTy pass).1
+      (move t bp ba lo hi (gp ++ [(ga, gj)]) gTy pass).2 :=
+  { node := move_nodeCoh gTy pass hn hlt hhi hg hP1 hbug
+    gap := by
+      have hns := move_not_inSelf hP1
+      simp only [move, hns, Bool.false_eq_true, if_false]
+      exact forwardMove_gapCoh _ _ _ _ _ }
+
+/-- moving never invalidates a statement cursor -/
+theorem move_never_invalid (bp : Path) (ba : Attr) (lo hi : Nat) (gapPath : Path) (p : Path) :
+    ∃ p', forwardMove bp ba lo hi gapPath (.node p) = .ok (.node p') := ⟨_, rfl⟩
+
+/-- `reorder_stmts`-like: move `s4` before `s2` inside the loop -/
+example : Coherent exT (move exT [(.body, 0)] .body 2 3 [(.body, 0), (.body, 0)] .before (leaf 99)).1
+    (move exT [(.body, 0)] .body 2 3 [(.body, 0), (.body, 0)] .before (leaf 99)).2 :=
+  move_coherent exT (.mk 1 1 [leaf 2, leaf 3, leaf 4] []) [(.body, 0)] .body 2 3 [(.body, 0)] .body 0 .before
+    (leaf 99) rfl (by decide) (by decide) rfl
+    (by intro i s h1 h2 h; simp at h; omega) (by decide)
+
+/-- `fission`/`lift_alloc`-like: move `[s3; s4]` out of the loop, after it (block deeper than gap) -/
+example : Coherent exT (move exT [(.body, 0)] .body 1 3 [(.body, 0)] .after (leaf 99)).1
+    (move exT [(.body, 0)] .body 1 3 [(.body, 0)] .after (leaf 99)).2 :=
+  move_coherent exT (.mk 1 1 [leaf 2, leaf 3, leaf 4] []) [(.body, 0)] .body 1 3 [] .body 0 .after
+    (leaf 99) rfl (by decide) (by decide) rfl
+    (by intro i s h1 h2 h; simp at h) (by decide)
+
+def exMoveOut : Tree × Fwd := move exT [(.body, 0)] .body 1 3 [(.body, 0)] .after (leaf 99)
+
+example :
+    exMoveOut.2 (.node [(.body, 0), (.body, 2)]) = .ok (.node [(.body, 2)]) ∧
+    labelAt exMoveOut.1 [(.body, 2)] = some 4 ∧
+    exMoveOut.2 (.node [(.body, 2)]) = .ok (.node [(.body, 4)]) ∧
+    labelAt exMoveOut.1 [(.body, 4)] = some 9 := by decide
+
+/-- the deviation `moveBug`: move `s2` from the loop (first child) into the `else` branch of the
+    `if` (second child), after `s7`.  `new_gap_path` subtracts the block length from the index of
+    the `if` (position 0 of the path, above the block's list): the cursor of `s2` is sent to
+    `[(body,0),(orelse,1)]` — a path that does not exist — instead of `[(body,1),(orelse,1)]`. -/
+def exMoveBug : Tree × Fwd := move exT [(.body, 0)] .body 0 1 [(.body, 1), (.orelse, 0)] .after (leaf 99)
+
+theorem move_gap_path_counterexample :
+    moveBug ([(.body, 0)] ++ [(.body, 0)]) (gapPathOf [(.body, 1), (.orelse, 0)] .after) = true ∧
+    exMoveBug.2 (.node [(.body, 0), (.body, 0)]) = .ok (.node [(.body, 0), (.orelse, 1)]) ∧
+    labelAt exMoveBug.1 [(.body, 0), (.orelse, 1)] = none ∧
+    labelAt exMoveBug.1 [(.body, 1), (.orelse, 1)] = some 2 := by decide
+
+/-! ### block cursors under `Block._move` -/
+
+/-- what Python does: a block cursor is forwarded through its first and last member; the result
+    (when the asserts hold) is the range between their forwards, with the OLD attribute name -/
+theorem move_block_partial (bp : Path) (ba : Attr) (lo hi : Nat) (gapPath : Path)
+    (anchor : Path) (a : Attr) (rlo rhi : Nat) (anchor' : Path) (a' : Attr) (lo' hi' : Nat)
+    -- missing: that the forwarded block covers exactly the forwards of the old members; false
+    -- whenever the block overlaps the moved range without being inside it, or is moved to a
+    -- list with another attribute (see the counterexamples)
+    (h : forwardMove bp ba lo hi gapPath (.block anchor a rlo rhi) = .ok (.block anchor' a' lo' hi')) :
+    a' = a ∧
+    anchor' = parentPath (fwdMoveNode bp ba lo hi gapPath (anchor ++ [(a, rlo)])) ∧
+    anchor' = parentPath (fwdMoveNode bp ba lo hi gapPath (anchor ++ [(a, rhi - 1)])) ∧
+    lo' = lastIdx (fwdMoveNode bp ba lo hi gapPath (anchor ++ [(a, rlo)])) ∧
+    hi' = lastIdx (fwdMoveNode bp ba lo hi gapPath (anchor ++ [(a, rhi - 1)])) + 1 := by
+  simp only [forwardMove] at h
+  split at h
+  · cases h
+  · split at h
+    · cases h
+    · split at h
+      · cases h
+      · split at h
+        · cases h
+        · rename_i h1 h2 h3
+          simp only [Except.ok.injEq, Cursor.block.injEq] at h
+          obtain ⟨h4, h5, h6, h7⟩ := h
+          refine ⟨h5.symm, h4.symm, ?_, h6.symm, h7.symm⟩
+          rw [← h4]
+          exact Classical.not_not.mp h1
+
+/-- `reorder_stmts` on `[s3; s4]`: the block cursor `[s2; s3; s4]` overlaps the moved range `[s4]`
+    and is forwarded to `[s2; s4]` — it loses `s3`, which is still there -/
+def exMoveSwap : Tree × Fwd := move exT [(.body, 0)] .body 2 3 [(.body, 0), (.body, 1)] .before (leaf 99)
+
+theorem move_block_overlap_counterexample :
+    exMoveSwap.2 (.block [(.body, 0)] .body 0 3) = .ok (.block [(.body, 0)] .body 0 2) ∧
+    exMoveSwap.2 (.node [(.body, 0), (.body, 1)]) = .ok (.node [(.body, 0), (.body, 2)]) ∧
+    -- and the block cursor `[s3; s4]` (both statements of the swap) crashes (AssertionError)
+    exMoveSwap.2 (.block [(.body, 0)] .body 1 3) = .error .crash := by decide
+
+/-- `eliminate_dead_code`-like: the `else` block `[s7; s8]` is moved in front of the `if`
+    (into a `body` list); the forwarded block cursor keeps the attribute `orelse` and does not
+    denote a block of the new tree -/
+def exMoveElse : Tree × Fwd := move exT [(.body, 1)] .orelse 0 2 [(.body, 1)] .before (leaf 99)
+
+theorem move_block_attr_counterexample :
+    exMoveElse.2 (.block [(.body, 1)] .orelse 0 2) = .ok (.block [] .orelse 1 3) ∧
+    validCursorB exMoveElse.1 (.block [] .orelse 1 3) = false ∧
+    validCursorB exMoveElse.1 (.block [] .body 1 3) = true := by decide
+
 end Exo.Cursor
